@@ -498,7 +498,10 @@ func (v *FnVerifier) havocKeys(st *State, ms *ModSet) {
 func (v *FnVerifier) frameOld(key, old, n, allocPre string, except []string) {
 	d := v.reg.dims[key]
 	isMap := strings.HasPrefix(key, "MD!") || strings.HasPrefix(key, "MV!")
-	if !(d == 1 || d == 2 || isMap) {
+	// ghost arrays indexed by object reference (blob of a byte array, stream contents, …) are framed
+	// like field heaps
+	isRefGhost := strings.HasPrefix(key, "GH!") && strings.HasPrefix(v.reg.sort[key], "(Array Int ")
+	if !(d == 1 || d == 2 || isMap || isRefGhost) {
 		return
 	}
 	conds := []string{"(< r " + allocPre + ")"}
